@@ -258,6 +258,68 @@ theorem unframe_incomplete (maxLen : Nat) (p : Bytes) (k : Nat) (h32 : u32 p.len
     rw [leVal_le 4 _ (by simpa [u32] using h32)]
     rw [if_neg (by omega), if_pos (by omega)]
 
+/-- the byte stream of a list of payloads as `Connect::io` writes it -/
+def stream (ps : List Bytes) : Bytes := (ps.map frame).flatten
+
+/-- **Stream round trip** (`Connect::io`, reading side): the concatenation of any number of frames,
+followed by an incomplete tail, is split into exactly those frames and that tail — whatever the sizes,
+as long as each payload respects the receiver's maximum frame length.  (The partition of the byte
+stream into reads does not appear: `splitFrames` is a function of the bytes accumulated so far.) -/
+theorem stream_roundtrip (maxLen : Nat) (ps : List Bytes) (tail : Bytes) (acc : List Bytes) (fuel : Nat)
+    (h32 : ∀ p ∈ ps, u32 p.length) (hmax : ∀ p ∈ ps, p.length ≤ maxLen)
+    (htail : unframe maxLen tail = .ok none) (hfuel : ps.length < fuel) :
+    splitFrames maxLen fuel (stream ps ++ tail) acc = .ok (acc.reverse ++ ps, tail) := by
+  induction ps generalizing acc fuel with
+  | nil =>
+    cases fuel with
+    | zero => omega
+    | succ f => simp [stream, splitFrames, htail]
+  | cons p rest ih =>
+    cases fuel with
+    | zero => omega
+    | succ f =>
+      have e : stream (p :: rest) ++ tail = frame p ++ (stream rest ++ tail) := by
+        simp [stream, List.append_assoc]
+      rw [e, splitFrames, unframe_frame maxLen p _ (h32 p (by simp)) (hmax p (by simp))]
+      simp only []
+      rw [ih (p :: acc) f (fun q hq => h32 q (by simp [hq])) (fun q hq => hmax q (by simp [hq]))
+        (by simp at hfuel; omega)]
+      simp
+
+/-- an oversize length prefix is refused, wherever it occurs in the stream -/
+theorem stream_oversize_refused (maxLen : Nat) (ps : List Bytes) (bad rest : Bytes) (acc : List Bytes) (fuel : Nat)
+    (h32 : ∀ p ∈ ps, u32 p.length) (hmax : ∀ p ∈ ps, p.length ≤ maxLen)
+    (hb32 : u32 bad.length) (hbad : maxLen < bad.length) (hfuel : ps.length < fuel) :
+    splitFrames maxLen fuel (stream ps ++ (frame bad ++ rest)) acc = .error .invalid := by
+  induction ps generalizing acc fuel with
+  | nil =>
+    cases fuel with
+    | zero => omega
+    | succ f =>
+      have : unframe maxLen (frame bad ++ rest) = .error .invalid := by
+        unfold unframe frame
+        have e1 : ((le 4 bad.length ++ bad) ++ rest).take 4 = le 4 bad.length := by
+          rw [List.append_assoc, List.take_append_of_le_length (by simp)]
+          simp [List.take_of_length_le]
+        have e3 : ¬ ((le 4 bad.length ++ bad ++ rest).length < 4) := by simp
+        simp only [e1, e3, if_false]
+        rw [leVal_le 4 _ (by simpa [u32] using hb32)]
+        simp [hbad]
+      simp [stream, splitFrames, this]
+  | cons p rest' ih =>
+    cases fuel with
+    | zero => omega
+    | succ f =>
+      have e : stream (p :: rest') ++ (frame bad ++ rest) = frame p ++ (stream rest' ++ (frame bad ++ rest)) := by
+        simp [stream, List.append_assoc]
+      rw [e, splitFrames, unframe_frame maxLen p _ (h32 p (by simp)) (hmax p (by simp))]
+      simp only []
+      exact ih (p :: acc) f (fun q hq => h32 q (by simp [hq])) (fun q hq => hmax q (by simp [hq]))
+        (by simp at hfuel; omega)
+
+/-- non-vacuity: three frames (one empty payload) and a two-byte tail -/
+example : splitFrames 8 10 (stream [[1, 2, 3], [], [9]] ++ [7, 0]) [] = .ok ([[1, 2, 3], [], [9]], [7, 0]) := by rfl
+
 /-- Length of an encoded message, by kind. -/
 theorem encode_length_fixed (m : Msg) :
     (match m with
